@@ -5,11 +5,11 @@ CONSTANTS
   MaxOps = 2
   MaxIno = 10
   Cfg <- MC_Cfg_seal_noopen
-  TaintOn = TRUE
+  AsFound <- MC_AF_none
   Mode = "c18"
   InitS <- MC_S_plain
   ScenCfg <- MC_Scen_seal_noopen
   ScenTree <- MC_Tree_plain
 VIEW View
-INVARIANTS TreeOK Sealed SealRulesOK Report
+INVARIANTS TreeOK HandlesOK Sealed SealRulesOK Report
 CHECK_DEADLOCK FALSE
